@@ -45,9 +45,9 @@ func init() {
 		},
 		Bound: func(tier string) string {
 			if tier == "thorough" {
-				return "full alphabet (28 leaves) trees <= 4 nodes, reduced alphabet (5 leaves) trees <= 6 nodes, keys a,b,c; all container positions x 5 mutations x 2 sides x 5 copying operations"
+				return "full alphabet (30 leaves) trees <= 4 nodes, reduced alphabet (5 leaves) trees <= 7 nodes, keys a,b,c; all container positions x 5 mutations x 2 sides x 5 copying operations"
 			}
-			return "full alphabet (28 leaves) trees <= 3 nodes, reduced alphabet (5 leaves) trees <= 5 nodes, keys a,b; all container positions x 5 mutations x 2 sides x 5 copying operations"
+			return "full alphabet (30 leaves) trees <= 3 nodes, reduced alphabet (5 leaves) trees <= 6 nodes, keys a,b; all container positions x 5 mutations x 2 sides x 5 copying operations"
 		},
 	})
 }
@@ -1191,7 +1191,7 @@ func run(c *core.Ctx) {
 			return true
 		})
 	}
-	each("full", c.Pick(4, 5), fullLeaves())
+	each("full", c.Pick(3, 4), fullLeaves())
 	each("reduced", c.Pick(6, 7), reducedLeaves())
 }
 
